@@ -104,7 +104,12 @@ fn process_tcp_packet(
         })?
     };
 
-    match reader.add_bytes(payload) {
+    let outcome = reader.add_bytes(payload);
+    // The reader empties its buffer when the record it completed is not a ClientHello: such a
+    // connection has nothing more to offer and must not keep collecting application data.
+    let reader_was_reset = reader.buffer_len() == 0;
+
+    match outcome {
         Ok(Some(signature)) => {
             let ja4 = signature.generate_ja4();
             let ja4_original = signature.generate_ja4_original();
@@ -129,7 +134,10 @@ fn process_tcp_packet(
             }))
         }
         Ok(None) => {
-            // Still accumulating data
+            if reader_was_reset {
+                tcp_flows.remove(&flow_key);
+            }
+            // Otherwise still accumulating data
             Ok(None)
         }
         Err(_e) => {
